@@ -91,7 +91,7 @@ fn build(picks: &[P], b: &mut B, depth: usize, xf: &dyn Fn(BBox) -> BBox) -> Vec
                     e.add_class("d-text-outside");
                     e.set("text-offset", "50");
                 } else if p.f % 5 == 1 && !b.clip_ids.is_empty() {
-                    e.set("clip-path", format!("url(#{})", b.clip_ids[p.r as usize % b.clip_ids.len()]));
+                    e.set("clip-path", url_ref(&b.clip_ids[p.r as usize % b.clip_ids.len()], p.f / 5));
                 } else {
                     el_xf(&mut e, p);
                 }
@@ -202,7 +202,7 @@ fn build(picks: &[P], b: &mut B, depth: usize, xf: &dyn Fn(BBox) -> BBox) -> Vec
                 i += k;
                 // (invisible <box> elements are tracked by the generator, which does not model clipping: no clip on such groups)
                 if p.f % 11 == 0 && t.is_none() && !b.clip_ids.is_empty() && b.boxes.len() == boxes_before {
-                    g.set("clip-path", format!("url(#{})", b.clip_ids[p.r as usize % b.clip_ids.len()]));
+                    g.set("clip-path", url_ref(&b.clip_ids[p.r as usize % b.clip_ids.len()], p.f / 11));
                 }
                 g.kids = kids.into_iter().map(X::El).collect();
                 out.push(g);
@@ -397,13 +397,24 @@ fn path_box(d: &str) -> Option<BBox> {
     bb
 }
 
+/// a reference in CSS url() notation: the address may be quoted, and padded with white space inside the parentheses
+fn url_ref<T: Into<u64>>(id: &str, sel: T) -> String {
+    match sel.into() % 6 {
+        1 => format!("url('#{id}')"),
+        2 => format!("url(\"#{id}\")"),
+        3 => format!("url( #{id} )"),
+        4 => format!("url( '#{id}' )"),
+        _ => format!("url(#{id})"),
+    }
+}
+
 struct Ctx<'a> {
     root: &'a Element,
 }
 
 impl<'a> Ctx<'a> {
     fn clip_box(&self, url: &str) -> Option<BBox> {
-        let id = url.trim().strip_prefix("url(#")?.strip_suffix(')')?;
+        let id = url.trim().strip_prefix("url(")?.strip_suffix(')')?.trim().trim_matches(['\'', '"']).trim().strip_prefix('#')?;
         let cp = self.root.find_id(id)?;
         let mut u: Option<BBox> = None;
         for k in cp.child_elements() {
